@@ -263,7 +263,11 @@ class Application(MutableMapping[str | AppKey[Any], Any]):
             subsig = getattr(subapp, signame)
 
             async def handler(app: "Application") -> None:
-                await subsig.send(subapp)
+                if signame == "on_cleanup":
+                    # run every cleanup receiver of the sub-application
+                    await subapp.cleanup()
+                else:
+                    await subsig.send(subapp)
 
             appsig = getattr(self, signame)
             appsig.append(handler)
@@ -356,7 +360,20 @@ class Application(MutableMapping[str | AppKey[Any], Any]):
         Should be called after shutdown()
         """
         if self.on_cleanup.frozen:
-            await self.on_cleanup.send(self)
+            # Every receiver runs even if an earlier one raised, so that a failing
+            # cleanup step cannot leave later ones (e.g. the cleanup contexts of
+            # sub-applications) without cleanup.
+            errors = []
+            for receiver in self.on_cleanup:
+                try:
+                    await receiver(self)
+                except (Exception, asyncio.CancelledError) as exc:
+                    errors.append(exc)
+            if errors:
+                if len(errors) == 1:
+                    raise errors[0]
+                else:
+                    raise CleanupError("Multiple errors on cleanup stage", errors)
         else:
             # If an exception occurs in startup, ensure cleanup contexts are completed,
             # including those of sub-applications that had already been started.
